@@ -1,6 +1,7 @@
 // Rate buffers with a poisoned tail: a write to k[i] with i far beyond NREACTIONS (e.g. a subscript taken from a
 // file index) lands in memory AddressSanitizer has been told is off limits, however far it is from the red zone.
-// Without ASan the tail holds a sentinel pattern that is checked afterwards.
+// One buffer per size is kept for the life of the process (allocating and poisoning 8 MiB per call would dominate the
+// fault-script runs).  Without ASan the tail holds a sentinel pattern that is checked when the buffer is handed back.
 #ifndef VERIF_GUARD_H
 #define VERIF_GUARD_H
 #include <cstdio>
@@ -16,29 +17,40 @@
 #define VERIF_GUARD_DOUBLES (1u << 20)
 #endif
 
+static double *verif_guard_buf = NULL;
+static size_t verif_guard_n    = 0;
+
 static inline double *verif_guarded_alloc(size_t n) {
+    if (verif_guard_buf && verif_guard_n == n) return verif_guard_buf;
+    if (verif_guard_buf) {
+#ifdef VERIF_HAVE_ASAN
+        ASAN_UNPOISON_MEMORY_REGION(verif_guard_buf + verif_guard_n, sizeof(double) * VERIF_GUARD_DOUBLES);
+#endif
+        free(verif_guard_buf);
+    }
     double *p = (double *)malloc(sizeof(double) * (n + VERIF_GUARD_DOUBLES));
     unsigned long long pat = 0x7ff8dead0000beefULL;
     for (size_t i = 0; i < VERIF_GUARD_DOUBLES; i++) memcpy(&p[n + i], &pat, 8);
 #ifdef VERIF_HAVE_ASAN
     ASAN_POISON_MEMORY_REGION(p + n, sizeof(double) * VERIF_GUARD_DOUBLES);
 #endif
+    verif_guard_buf = p;
+    verif_guard_n   = n;
     return p;
 }
-// returns the number of tail cells that were overwritten (only meaningful without ASan, which aborts at the write)
+// hands the buffer back (it stays allocated); without ASan the tail pattern is verified here
 static inline long verif_guarded_free(double *p, size_t n) {
-#ifdef VERIF_HAVE_ASAN
-    ASAN_UNPOISON_MEMORY_REGION(p + n, sizeof(double) * VERIF_GUARD_DOUBLES);
-#endif
+    (void)p; (void)n;
+#ifndef VERIF_HAVE_ASAN
     long bad = 0;
     unsigned long long pat = 0x7ff8dead0000beefULL, v;
     for (size_t i = 0; i < VERIF_GUARD_DOUBLES; i++) { memcpy(&v, &p[n + i], 8); if (v != pat) bad++; }
-    free(p);
     if (bad) {
         fprintf(stderr, "VERIF-SHIM-ABORT: %ld cells beyond the end of a rate buffer of %zu entries were written\n", bad, n);
         fflush(stderr);
         abort();
     }
-    return bad;
+#endif
+    return 0;
 }
 #endif
